@@ -127,6 +127,28 @@ for k, v in TECH_ADD7.items():
     t, txt, note, ref = CLAIMED[k]
     CLAIMED[k] = (t + v, txt, note, ref)
 
+# Rules added in round 8 (DESIGN.md §12)
+TECH_ADD8 = {
+ "C01": "; a value released by a deferred release is aliased by no result of the function, through result slots, slices and interface conversions (R01.5)",
+ "C03": "; a running minimum/maximum in a map-ordered loop does not recognise its empty state by a constant an entry can equal (R03.1)",
+ "C04": "; the string a top-level Render returns is the buffer's text (R04.9); stores into the tokenizer's source are parameters or saved values, never call results (R04.10)",
+ "C06": "; negative guard helpers (`blocked(name)`: false only where not sandboxed or allowed) are summarised like positive ones (R06.1)",
+ "C07": "; a loop that copies a filter chain appends every item (R07.5)",
+ "C08": "; a token emitted instead of tokenising a piece of text that is elsewhere handed to TokenizeExpression is controlled by an identifier validator of the whole text (R08.12); the equality routine of == and its numeric helpers contain no ordered floating-point comparison (R08.13)",
+ "C09": "; no render of a for loop's else branch is reachable from a binding of `loop` (R09.17)",
+ "C10": "; the loop that looks for the extends tag has no exit other than exhaustion or success (R10.10)",
+ "C12": "; stores into MacroNode.params/defaults/body are constructor parameters (R12.9); import helpers render the library on every successful path (R12.7)",
+ "C14": "; the result of Parser.Parse never becomes a map entry (R14.9)",
+ "C15": "; every successful return of a file-reading Load lies behind a read of the file (R15.9)",
+ "C16": "; error returns on the deserialising side are not control dependent on calls inspecting decoded strings (R16.11)",
+ "C17": "; import helpers render the library on every successful path (R17.6)",
+ "C18": "; typed containers a helper hands back from its data parameter count as data (R18.2)",
+ "C19": "; in the sibling implementations the data value is never asserted to an interface with methods (R19.5)",
+}
+for k, v in TECH_ADD8.items():
+    t, txt, note, ref = CLAIMED[k]
+    CLAIMED[k] = (t + v, txt, note, ref)
+
 NOT_YET = "static rule for this property not implemented yet at this commit (planned, see DESIGN.md §2)"
 NA = {}
 
